@@ -93,12 +93,14 @@ def cfgs(prop, tier):
         common = {"Ops": '{"SSTORE", "REGKEY", "JV", "CALL", "CREATE", "STOP", "REVERT"}', "CallKinds": ALLK,
                   "Targets": '{"a", "b"}', "Values": "{0, 2}", "Slots": "{0, 1}", "SVals": "{1, 2}",
                   "FailKinds": '{"err"}', "MaxFailPos": "0", "InitProgs": '{"regjv"}', "JPInit": "{FALSE}"}
+        # one frame, long: every sequence of stores and journal instructions over values {0, 1} (a value that returns to an earlier one is a new entry)
+        one = dict(common, Ops='{"SSTORE", "REGKEY", "JV", "STOP"}', MaxInstr="7", MaxNodes="1", Slots="{0}", SVals="{0, 1}", Values="{0}", InitProgs='{"stop"}')
         return dict(
             mc=[],
-            scn=[dict(common, MaxInstr="4", MaxNodes="2", Slots="{0}"), dict(common, MaxInstr="3", MaxNodes="3"),
+            scn=[dict(common, MaxInstr="4", MaxNodes="2", Slots="{0}"), dict(common, MaxInstr="3", MaxNodes="3"), one,
                  # refused value calls (insufficient balance) between journal instructions, deeper in instructions, narrower alphabet
                  dict(common, MaxInstr="4", MaxNodes="3", Slots="{0}", Ops='{"REGKEY", "JV", "CALL", "STOP"}', CallKinds='{"CALL"}', SVals="{1}")] if q else
-                [dict(common, MaxInstr="4", MaxNodes="2", Slots="{0}"), dict(common, MaxInstr="3", MaxNodes="3"),
+                [dict(common, MaxInstr="4", MaxNodes="2", Slots="{0}"), dict(common, MaxInstr="3", MaxNodes="3"), dict(one, MaxInstr="8"),
                  dict(common, MaxInstr="4", MaxNodes="3", Slots="{0}", SVals="{1}", Values="{0}", _forks="London"),
                  dict(common, MaxInstr="5", MaxNodes="3", Slots="{0}", Ops='{"REGKEY", "JV", "CALL", "STOP"}', CallKinds='{"CALL", "DELEGATECALL"}', SVals="{1}", _forks="London")],
             forks=["London"] if q else ["Byzantium", "London", "Cancun"])   # REVERT and STATICCALL exist from Byzantium on
